@@ -7,17 +7,21 @@ META = {
                  "Transport's pooled connections (grab / run / roundTrip / release) — for ALL event sequences and ALL response streams; trace acceptance: hook-recorded "
                  "C.* / T.* events of the real code under many goroutines against a scripted fake broker (reordering, delays, drops, duplicates, foreign ids, error codes, "
                  "slow/truncated bodies, closes, cancellations, deadlines) are replayed through the model's step function by a compiled Lean oracle, which also derives every "
-                 "call's result and evaluates the payload-tag equality monitor",
+                 "call's result and evaluates the payload-tag equality monitor; a byte-level model of the Fetch Batch (Model/BatchBytes.lean over Base/Reader: header, "
+                 "magic-0/1 messages, Read/ReadMessage callbacks, Close) with the theorem that a kept conn has consumed exactly the frame, and a generic theorem for every program in "
+                 "message_reader.go's size-threading discipline (Model/WireProg.lean); regenerated go/ast ties: 25 Boolean shape facts and 12 decision tables obtained by "
+                 "symbolic execution of waitResponse, do, doRequest, ApiVersions, ReadBatchWith, Batch.close, conn.run, RoundTrip and the pool functions, each recomputed from the models by `decide`",
     "level_claimed": {
         "category": "proof",
         "text": "Kernel-checked for every event sequence and every response stream (any order, duplicates, foreign ids): a call that obtains a frame obtained the frame at a "
                 "position nobody else obtained, whose correlation id is the id it wrote, and holds the read lock alone while parsing it; wire ids of calls less than 2^32 apart "
-                "differ; with a broker that labels frames truthfully the delivered payload tag is the request's tag; a pooled connection in the idle stack has consumed a response "
+                "differ; with a broker that labels frames truthfully the delivered payload tag is the request's tag and no waiter is ever stranded; a Batch that keeps its conn "
+                "has consumed exactly the declared frame on every read path (magic 0/1 byte-exact, every other reader by the size-threading discipline); a pooled connection in the idle stack has consumed a response "
                 "for every request written on it and never runs two exchanges at once; an abandoned call's frame is never delivered to another call.",
         "design_ref": "DESIGN.md §7 C06",
     },
-    "level_note": "Trusted: Lean kernel; propext/Classical.choice/Quot.sound; the hand-written models Model/ConnMux.lean and Model/TransportConn.lean, tied to conn.go / batch.go / "
-                  "transport.go by trace acceptance on sampled schedules (hooks `verif hooks:` b23b539, 5911b5b); atomicity of each event = the mutex that brackets the hooked "
+    "level_note": "Trusted: Lean kernel; propext/Classical.choice/Quot.sound; the hand-written models Model/ConnMux.lean, Model/TransportConn.lean, Model/BatchBytes.lean, tied to conn.go / batch.go / "
+                  "transport.go by regenerated decision tables and shape facts (go/extract/muxfacts, which is trusted to read the syntax tree correctly) and by trace acceptance on sampled schedules (hooks `verif hooks:` b23b539, 5911b5b); atomicity of each event = the mutex that brackets the hooked "
                   "statements (wlock, rlock, connGroup.mutex, the single run goroutine per conn); frames are consumed whole or the Conn is closed (C11's alignment; D2 fixed); "
                   "the fake broker and its journal; goroutine ids are read from runtime.Stack to attribute C.Write events to harness calls.",
 }
